@@ -230,6 +230,16 @@ def run(ctx):
         elif efl is not None:
             ctx.count("C05.B6 not applicable: PopLoopFrame has no computed jump")
 
+        # ---- B9: the assignment tracker (compiler/meta.rs) decides which outer names a macro / call body encloses.  Its
+        # scopes must end where the engine's frames end and every statement list must be walked in its own right,
+        # otherwise a name bound in a loop body still counts as bound in the for-else branch and a macro there does not
+        # enclose the outer variable (shared with C18.W6 / W1)
+        if cname == "MAX" and prog.has_fn("minijinja::compiler::meta::track_walk"):
+            from . import c18 as _c18
+            ce_, me_, _cs, _ms = _c18.labelled_events(prog)
+            n9 = _c18.check_scope_mirroring(ctx, prog, tag, "C05.B9.tracker-scope-ends-where-the-engine's-frame-ends", ce_, me_)
+            n9 += _c18.check_statement_lists_walked(ctx, prog, tag, "C05.B9.statement-list-is-walked-in-its-own-scope", ce_, me_)
+            ctx.floor("C05.B9 tracker scope obligations" + tag, n9, 5)
         # ---- B8: the program counter only ever holds positions of the running instructions (c05_jumps)
         from .c05_jumps import check_jumps
         check_jumps(ctx, prog, tag)
